@@ -141,16 +141,31 @@ func c16Content(r *Rng, size int) []byte {
 	return b
 }
 
-// c16Modules returns the three module versions, identical in parent and child.
+// c16Modules returns the module versions, identical in parent and child.
 var c16Defs = []struct {
 	path, ver string
 	files     []string
 	big       string
 }{
-	{"example.com/a@v0", "v0.0.1", []string{"a.cue", "b.cue"}, "a.cue"},
-	{"example.com/b/sub@v1", "v1.2.0", []string{"x.cue", "big.cue", "dir1/y.cue", "dir1/dir2/z.cue", "other/w.cue"}, "big.cue"},
-	{"example.com/a@v0", "v0.1.0-rc.1", []string{"a.cue", "c.cue", "sub/d.cue"}, "sub/d.cue"},
+	// primary versions (every phase works on them): one module path, version strings in a
+	// string-prefix relation, so their extraction directories `foo@v0.0.1`, `foo@v0.0.10`,
+	// `foo@v0.0.1-rc.1` are siblings whose names are prefixes of one another
+	{"example.com/foo@v0", "v0.0.1", []string{"a.cue", "b.cue"}, "a.cue"},
+	{"example.com/foo@v0", "v0.0.10", []string{"x.cue", "big.cue", "dir1/y.cue", "dir1/dir2/z.cue", "other/w.cue"}, "big.cue"},
+	{"example.com/foo@v0", "v0.0.1-rc.1", []string{"a.cue", "c.cue", "sub/d.cue"}, "sub/d.cue"},
+	// bystanders: present (complete) in the cache while a primary version is worked on
+	{"example.com/foo@v0", "v0.0.11", []string{"a.cue", "e.cue"}, ""},
+	{"example.com/foobar@v0", "v0.0.1", []string{"a.cue", "f.cue"}, ""},
+	// probe pair for the `.tmp-` sibling cleanup: "v0.0.1-a.tmp-x" is a valid version whose
+	// directory name starts with the cleanup prefix of "v0.0.1-a"
+	{"example.com/q@v0", "v0.0.1-a", []string{"a.cue"}, ""},
+	{"example.com/q@v0", "v0.0.1-a.tmp-x", []string{"a.cue", "g.cue"}, ""},
 }
+
+const (
+	c16NPrimary = 3 // modules 0..2: subject of every phase
+	c16NRegular = 5 // modules 0..4: may share a cache; 5 and 6 are the probe pair
+)
 
 func c16Modules(seed uint64) []*c16Mod {
 	r := NewRng(seed ^ 0xC16C16C16)
@@ -164,7 +179,7 @@ func c16Modules(seed uint64) []*c16Mod {
 		for _, name := range d.files {
 			size := 1 + mr.Intn(3000)
 			if name == d.big {
-				size = 200_000 + mr.Intn(100_000)
+				size = 48_000 + mr.Intn(16_000)
 			}
 			files[name] = c16Content(mr, size)
 		}
@@ -421,6 +436,9 @@ type c16Job struct {
 	// the process-wide one: as good as a fresh process for the stateless FetchFromCache,
 	// at a fraction of the cost (process creation is what dominates the run time).
 	Fresh bool `json:",omitempty"`
+	// Dir (with Fresh) makes the job work on another cache directory than Spec.CacheDir, so
+	// that one worker process can serve many independent cases (batched recovery runs).
+	Dir string `json:",omitempty"`
 }
 
 type c16Spec struct {
@@ -619,12 +637,18 @@ func c16Child(c *Cfg) {
 		}
 	}
 	out := &c16Out{Results: make([]c16Result, len(spec.Jobs)), Events: []c16Event{}}
-	tracing := spec.Trace && sequential && traced >= 0
+	tracing := spec.Trace && sequential
 	if spec.Trace && !tracing {
-		fail("Trace needs sequential jobs with exactly one non-fromcache job")
+		fail("Trace needs sequential jobs")
 	}
 	jobEvents := make([][]c16Event, len(spec.Jobs))
 	curJob := -1 // tracing runs are sequential: the job whose hooks are being recorded
+	jobDir := func(i int) string {
+		if spec.Jobs[i].Dir != "" {
+			return spec.Jobs[i].Dir
+		}
+		return spec.CacheDir
+	}
 	if tracing || spec.PauseAt != "" {
 		var mu sync.Mutex
 		seen := map[string]int{}
@@ -633,7 +657,7 @@ func c16Child(c *Cfg) {
 			seen[name]++
 			nth := seen[name]
 			if tracing && curJob >= 0 {
-				jobEvents[curJob] = append(jobEvents[curJob], c16Event{name, c16Snapshot(spec.CacheDir, mods[spec.Jobs[curJob].Mod])})
+				jobEvents[curJob] = append(jobEvents[curJob], c16Event{name, c16Snapshot(jobDir(curJob), mods[spec.Jobs[curJob].Mod])})
 			}
 			mu.Unlock()
 			if spec.PauseAt != "" && name == spec.PauseAt && nth == spec.PauseNth {
@@ -657,13 +681,14 @@ func c16Child(c *Cfg) {
 		m := mods[j.Mod]
 		res := c16Result{Kind: j.Kind, Mod: j.Mod}
 		cache := cache
+		dir := jobDir(i)
 		if j.Fresh {
 			reg, err := ociclient.New(spec.Host, &ociclient.Options{
 				Insecure:  true,
 				Transport: &c16Transport{id: spec.WorkerID, base: http.DefaultTransport},
 			})
 			if err == nil {
-				cache, err = modcache.New(modregistry.NewClient(reg), spec.CacheDir)
+				cache, err = modcache.New(modregistry.NewClient(reg), dir)
 			}
 			if err != nil {
 				res.Err, res.ErrText = "err", "fresh cache: "+err.Error()
@@ -672,7 +697,7 @@ func c16Child(c *Cfg) {
 			}
 		}
 		if tracing {
-			res.Pre = c16Snapshot(spec.CacheDir, m)
+			res.Pre = c16Snapshot(dir, m)
 			if i == traced {
 				out.Init = res.Pre
 			}
@@ -720,7 +745,7 @@ func c16Child(c *Cfg) {
 			case mf.QualifiedModule() != m.MV.Path():
 				res.Verdict = "module path differs"
 			default:
-				data, err := os.ReadFile(filepath.Join(m.vdir(spec.CacheDir), m.escVer+".mod"))
+				data, err := os.ReadFile(filepath.Join(m.vdir(dir), m.escVer+".mod"))
 				switch {
 				case err != nil:
 					res.Verdict = "mod file missing on disk"
@@ -887,6 +912,7 @@ func (s *c16Server) forget(workers ...string) {
 
 // c16Env is one registry (one module-content seed) served on localhost.
 type c16Env struct {
+	template string // a cache holding every regular module version, completely fetched
 	seed     uint64
 	modsFile string
 	mods     []*c16Mod
@@ -977,6 +1003,8 @@ func (p *c16Parent) start(spec c16Spec, crashAt int) *c16Proc {
 	if crashAt > 0 {
 		env = append(env, fmt.Sprintf("VERIF_CRASH_AT=%d", crashAt))
 	}
+	// short-lived workers: a small scheduler and no garbage collection make start-up cheaper
+	env = append(env, "GOMAXPROCS=4", "GOGC=off")
 	pr.cmd.Env = env
 	pr.cmd.Stdout = &pr.stdout
 	pr.cmd.Stderr = &pr.stderr
@@ -1185,6 +1213,7 @@ type c16Case struct {
 	step    int
 	workers []string
 	replay  map[string]any
+	by      map[int]string // populated bystander versions: module index -> snapshot
 }
 
 func (p *c16Parent) newCase(env *c16Env, id string, replay map[string]any) *c16Case {
@@ -1309,6 +1338,157 @@ func (cs *c16Case) traced(kind string, m *c16Mod, tag string, fault string, fcBe
 	return tr
 }
 
+// ---- cross-version interference: bystander versions ----------------------------------------
+
+// c16CopyTreeModes copies a tree, giving directories their original mode afterwards (the
+// cache makes extracted directories read-only).
+func c16CopyTreeModes(src, dst string) error {
+	type dm struct {
+		path string
+		mode fs.FileMode
+	}
+	var dirs []dm
+	err := filepath.WalkDir(src, func(p string, d fs.DirEntry, err error) error {
+		if err != nil {
+			return err
+		}
+		rel, _ := filepath.Rel(src, p)
+		to := filepath.Join(dst, rel)
+		info, err := d.Info()
+		if err != nil {
+			return err
+		}
+		if d.IsDir() {
+			dirs = append(dirs, dm{to, info.Mode().Perm()})
+			return os.MkdirAll(to, 0o777)
+		}
+		data, err := os.ReadFile(p)
+		if err != nil {
+			return err
+		}
+		if err := os.WriteFile(to, data, 0o666); err != nil {
+			return err
+		}
+		return os.Chmod(to, info.Mode().Perm())
+	})
+	for i := len(dirs) - 1; i >= 0 && err == nil; i-- {
+		err = os.Chmod(dirs[i].path, dirs[i].mode)
+	}
+	return err
+}
+
+// c16CopyModule copies the cache artefacts of one module version from one cache to another.
+func c16CopyModule(from, to string, m *c16Mod) error {
+	if err := os.MkdirAll(filepath.Dir(m.xdir(to)), 0o777); err != nil {
+		return err
+	}
+	if err := c16CopyTreeModes(m.xdir(from), m.xdir(to)); err != nil {
+		return err
+	}
+	if err := os.MkdirAll(m.vdir(to), 0o777); err != nil {
+		return err
+	}
+	for _, suf := range []string{"zip", "mod", "lock", "partial"} {
+		data, err := os.ReadFile(filepath.Join(m.vdir(from), m.escVer+"."+suf))
+		if err != nil {
+			continue
+		}
+		if err := os.WriteFile(filepath.Join(m.vdir(to), m.escVer+"."+suf), data, 0o666); err != nil {
+			return err
+		}
+	}
+	return nil
+}
+
+// makeTemplate fetches every regular module version into one cache (one child).
+func (p *c16Parent) makeTemplate(env *c16Env) error {
+	dir, err := os.MkdirTemp(p.root, "template-")
+	if err != nil {
+		return err
+	}
+	var jobs []c16Job
+	for i := 0; i < c16NRegular; i++ {
+		jobs = append(jobs, c16Job{Kind: "fetch", Mod: i})
+	}
+	run := p.start(c16Spec{Host: env.host, CacheDir: dir, Seed: env.seed, WorkerID: "template", Jobs: jobs, ModsFile: env.modsFile}, 0).wait()
+	if run.Out == nil || len(run.Out.Results) != len(jobs) {
+		return fmt.Errorf("template child failed: %s", run.Fail)
+	}
+	for i, r := range run.Out.Results {
+		if !r.Ok || r.Verdict != "equal" {
+			return fmt.Errorf("template: fetch of module %d: %s %s %s", i, r.Err, r.Verdict, r.ErrText)
+		}
+	}
+	env.template = dir
+	return nil
+}
+
+// populate puts every regular module version except `exclude` into the case's cache,
+// complete, as if fetched earlier; it remembers their snapshots.
+func (cs *c16Case) populate(exclude int) {
+	cs.by = map[int]string{}
+	if cs.env.template == "" {
+		return
+	}
+	for i := 0; i < c16NRegular; i++ {
+		if i == exclude {
+			continue
+		}
+		m := cs.env.mods[i]
+		if err := c16CopyModule(cs.env.template, cs.dir, m); err != nil {
+			cs.buf.Direct(false, "harness-setup", "cannot populate the cache with module "+fmt.Sprint(i)+": "+err.Error(), cs.replay)
+			continue
+		}
+		cs.by[i] = cs.snap(m)
+	}
+}
+
+// checkBystanders: every version that was complete before the operation on another version
+// must still be complete, byte-identical, and count as available.
+func (cs *c16Case) checkBystanders(after string) {
+	for i := 0; i < c16NRegular; i++ {
+		before, ok := cs.by[i]
+		if !ok {
+			continue
+		}
+		m := cs.env.mods[i]
+		now := cs.snap(m)
+		cs.buf.Direct(now == before, "cross-version-damaged",
+			fmt.Sprintf("after %s, module %d (%s), which was complete in the same cache, changed from %s to %s", after, i, m.MV, before, now), cs.replay)
+		if now != before {
+			cs.buf.Safe(m.N(), now, cs.replay)
+		}
+	}
+}
+
+// bystanderJobs are FetchFromCache calls (fresh Cache each) for the populated versions.
+func (cs *c16Case) bystanderJobs() []c16Job {
+	var jobs []c16Job
+	for i := 0; i < c16NRegular; i++ {
+		if _, ok := cs.by[i]; ok {
+			jobs = append(jobs, c16Job{Kind: "fromcache", Mod: i, Fresh: true, Dir: cs.dir})
+		}
+	}
+	return jobs
+}
+
+// emitJob turns the result of one job of a traced sequential child into its protocol op.
+func (cs *c16Case) emitJob(res c16Result, fault string) {
+	m := cs.env.mods[res.Mod]
+	f := "none"
+	switch fault {
+	case "get", "modget":
+		f = "get"
+	case "copy", "short":
+		f = "copy"
+	}
+	if res.Kind == "fromcache" {
+		cs.buf.FromCache(m.N(), res.Pre, c16Ret(res.Kind, res), res.Events)
+	} else {
+		cs.buf.TraceOp(res.Kind, m.N(), f, res.Pre, c16Ret(res.Kind, res), res.Events, cs.replay)
+	}
+}
+
 // ---- phases --------------------------------------------------------------------------------
 
 func c16OnlyBetweenStats(evs []c16Event) bool {
@@ -1320,61 +1500,95 @@ func c16OnlyBetweenStats(evs []c16Event) bool {
 	return true
 }
 
-// P1: clean traces. Returns the number of hook events of the cold fetch / cold modfile.
+// runTraced runs one child that executes the jobs sequentially with tracing, emits the
+// protocol op of every job, and returns the results (nil when the child broke).
+func (cs *c16Case) runTraced(tag string, jobs []c16Job) []c16Result {
+	run, _ := cs.run(tag, jobs, c16Opts{Trace: true})
+	if run.Out == nil || len(run.Out.Results) != len(jobs) {
+		return nil
+	}
+	for _, r := range run.Out.Results {
+		cs.emitJob(r, "")
+	}
+	return run.Out.Results
+}
+
+// P1: clean traces (two children per module). Returns the number of hook events of the
+// cold fetch / cold modfile.
 func (p *c16Parent) p1Case(env *c16Env, mi int) (*c16Buf, int, int) {
 	m := env.mods[mi]
 	n := m.N()
 	hFetch, hMod := 0, 0
 	okEq := func(r c16Result) bool { return r.Ok && r.Verdict == "equal" }
 	txt := func(r c16Result) string { return r.Err + " " + r.Verdict + " " + r.ErrText }
+	fc := c16Job{Kind: "fromcache", Mod: mi, Fresh: true}
 
 	cs := p.newCase(env, fmt.Sprintf("p1a-m%d", mi), map[string]any{"module": mi})
 	b := cs.buf
 	b.Count("phase=P1")
-	tr := cs.traced("fetch", m, "fetch-cold", "", true, true)
-	b.Direct(!tr.Before.Ok, "fromcache-on-empty", "FetchFromCache served a directory from an empty cache", cs.replay)
-	b.Direct(okEq(tr.Res), "clean-fetch-failed", "cold Fetch: "+txt(tr.Res), cs.replay)
-	b.Direct(okEq(tr.After), "not-available-after-fetch", "FetchFromCache after a clean Fetch: "+txt(tr.After), cs.replay)
-	if tr.Run.Out != nil {
-		hFetch = len(tr.Run.Out.Events)
+	cs.populate(mi)
+	jobs := []c16Job{
+		fc,                                      // 0: empty cache
+		{Kind: "fetch", Mod: mi},                // 1: cold
+		fc,                                      // 2
+		{Kind: "fetch", Mod: mi},                // 3: warm, same Cache
+		{Kind: "fetch", Mod: mi, Fresh: true},   // 4: warm, as a fresh process sees it
+		fc,                                      // 5
+		{Kind: "modfile", Mod: mi},              // 6: cold ModFile after the fetch
+		{Kind: "modfile", Mod: mi},              // 7: in-memory hit
+		{Kind: "modfile", Mod: mi, Fresh: true}, // 8: disk hit
+	}
+	nb := len(jobs)
+	jobs = append(jobs, cs.bystanderJobs()...)
+	if rs := cs.runTraced("clean", jobs); rs != nil {
+		b.Direct(!rs[0].Ok, "fromcache-on-empty", "FetchFromCache served a directory that was never fetched", cs.replay)
+		b.Direct(okEq(rs[1]), "clean-fetch-failed", "cold Fetch: "+txt(rs[1]), cs.replay)
+		b.Direct(okEq(rs[2]), "not-available-after-fetch", "FetchFromCache after a clean Fetch: "+txt(rs[2]), cs.replay)
+		hFetch = len(rs[1].Events)
 		b.Count(fmt.Sprintf("p1-fetch-hooks=%d n=%d", hFetch, n))
 		b.Direct(hFetch > 0, "hooks-missing", "a cold Fetch passed no hook point (binary built without -tags verif?)", cs.replay)
 		if hFetch != 11+2*n {
 			b.Count("p1-fetch-hooks-unexpected")
 		}
+		for _, i := range []int{3, 4} {
+			b.Direct(okEq(rs[i]), "clean-fetch-failed", "warm Fetch: "+txt(rs[i]), cs.replay)
+			b.Direct(c16OnlyBetweenStats(rs[i].Events), "warm-fetch-effects", "a Fetch on a warm cache passed hook points other than downloaddir.between-stats", cs.replay)
+		}
+		b.Direct(okEq(rs[5]), "not-available-after-fetch", "FetchFromCache (fresh Cache) after a clean Fetch: "+txt(rs[5]), cs.replay)
+		for _, i := range []int{6, 7, 8} {
+			b.Direct(okEq(rs[i]), "clean-modfile-failed", "ModFile: "+txt(rs[i]), cs.replay)
+		}
+		b.Direct(len(rs[7].Events) == 0 && len(rs[8].Events) == 0, "warm-modfile-effects", "a ModFile on a warm cache passed hook points", cs.replay)
+		for _, r := range rs[nb:] {
+			b.Direct(okEq(r), "cross-version-not-served",
+				fmt.Sprintf("after a clean fetch of module %d, FetchFromCache of module %d (complete in the same cache): %s", mi, r.Mod, txt(r)), cs.replay)
+		}
+	} else {
+		b.Direct(false, "clean-fetch-failed", "the clean-run child of module "+fmt.Sprint(mi)+" produced no result", cs.replay)
 	}
 	b.Safe(n, cs.snap(m), cs.replay)
-	tr = cs.traced("fetch", m, "fetch-warm", "", false, true)
-	b.Direct(okEq(tr.Res), "clean-fetch-failed", "warm Fetch: "+txt(tr.Res), cs.replay)
-	b.Direct(okEq(tr.After), "not-available-after-fetch", "FetchFromCache (fresh process) after a clean Fetch: "+txt(tr.After), cs.replay)
-	if tr.Run.Out != nil {
-		b.Direct(c16OnlyBetweenStats(tr.Run.Out.Events), "warm-fetch-effects", "a Fetch on a warm cache passed hook points other than downloaddir.between-stats", cs.replay)
-	}
-	tr = cs.traced("modfile", m, "modfile-cold-after-fetch", "", false, false)
-	b.Direct(okEq(tr.Res), "clean-modfile-failed", "cold ModFile: "+txt(tr.Res), cs.replay)
-	tr = cs.traced("modfile", m, "modfile-warm", "", false, false)
-	b.Direct(okEq(tr.Res), "clean-modfile-failed", "warm ModFile: "+txt(tr.Res), cs.replay)
-	b.Safe(n, cs.snap(m), cs.replay)
+	cs.checkBystanders(fmt.Sprintf("a clean Fetch and ModFile of module %d", mi))
 	cs.close()
 
 	cs2 := p.newCase(env, fmt.Sprintf("p1b-m%d", mi), map[string]any{"module": mi})
 	cs2.buf = b
-	tr = cs2.traced("modfile", m, "modfile-cold", "", false, false)
-	b.Direct(okEq(tr.Res), "clean-modfile-failed", "cold ModFile: "+txt(tr.Res), cs2.replay)
-	if tr.Run.Out != nil {
-		hMod = len(tr.Run.Out.Events)
+	jobs = []c16Job{
+		{Kind: "modfile", Mod: mi}, // 0: cold
+		{Kind: "modfile", Mod: mi}, // 1
+		fc,                         // 2: only the module file is cached
+		{Kind: "fetch", Mod: mi},   // 3: cold fetch after ModFile
+		{Kind: "fetch", Mod: mi},   // 4
+	}
+	if rs := cs2.runTraced("clean-modfile-first", jobs); rs != nil {
+		hMod = len(rs[0].Events)
 		b.Count(fmt.Sprintf("p1-modfile-hooks=%d", hMod))
+		b.Direct(okEq(rs[0]) && okEq(rs[1]), "clean-modfile-failed", "ModFile: "+txt(rs[0])+" / "+txt(rs[1]), cs2.replay)
+		b.Direct(len(rs[1].Events) == 0, "warm-modfile-effects", "a ModFile on a warm cache passed hook points", cs2.replay)
+		b.Direct(!rs[2].Ok, "fromcache-on-empty", "FetchFromCache served a directory when only the module file was cached", cs2.replay)
+		b.Direct(okEq(rs[3]) && okEq(rs[4]), "clean-fetch-failed", "Fetch after ModFile: "+txt(rs[3])+" / "+txt(rs[4]), cs2.replay)
+	} else {
+		b.Direct(false, "clean-modfile-failed", "the clean-run child of module "+fmt.Sprint(mi)+" produced no result", cs2.replay)
 	}
-	tr = cs2.traced("modfile", m, "modfile-warm", "", false, true)
-	b.Direct(okEq(tr.Res), "clean-modfile-failed", "warm ModFile: "+txt(tr.Res), cs2.replay)
-	b.Direct(!tr.After.Ok, "fromcache-on-empty", "FetchFromCache served a directory when only the module file was cached", cs2.replay)
-	if tr.Run.Out != nil {
-		b.Direct(len(tr.Run.Out.Events) == 0, "warm-modfile-effects", "a ModFile on a warm cache passed hook points", cs2.replay)
-	}
-	tr = cs2.traced("fetch", m, "fetch-cold-after-modfile", "", false, false)
-	b.Direct(okEq(tr.Res), "clean-fetch-failed", "cold Fetch after ModFile: "+txt(tr.Res), cs2.replay)
-	tr = cs2.traced("fetch", m, "fetch-warm", "", false, false)
-	b.Direct(okEq(tr.Res), "clean-fetch-failed", "warm Fetch: "+txt(tr.Res), cs2.replay)
 	b.Safe(n, cs2.snap(m), cs2.replay)
 	cs2.close()
 	return b, hFetch, hMod
@@ -1387,24 +1601,38 @@ type c16Step struct {
 	Fault    string `json:"fault,omitempty"` // registry fault planned once (no crash)
 }
 
-// chainCase: fresh cache; each step is a child that is killed at a hook point or hits a
-// registry fault; then FetchFromCache, a traced clean run, and FetchFromCache again.
-// It returns the number of hook events of the recovery run.
-func (p *c16Parent) chainCase(env *c16Env, phase, id string, mi int, kind string, steps []c16Step) (*c16Buf, int) {
+// c16Chain is a chain case between its two halves: the disturbed runs have happened (each
+// in its own process, killed or faulted), the recovery jobs are still to be run — batched
+// with those of other cases in one worker process (a fresh Cache per job is as good as a
+// fresh process: all state of modcache lives in the Cache value and on disk).
+type c16Chain struct {
+	cs         *c16Case
+	m          *c16Mod
+	mi         int
+	kind       string
+	phase      string
+	desc       string
+	prev       string
+	onlyFaults bool
+	jobs       []c16Job
+}
+
+// chainPrep: fresh cache holding the other versions; each step is a child that is killed at
+// a hook point or hits a registry fault.
+func (p *c16Parent) chainPrep(env *c16Env, phase, id string, mi int, kind string, steps []c16Step) *c16Chain {
 	m := env.mods[mi]
 	n := m.N()
 	cs := p.newCase(env, id, map[string]any{"module": mi, "kind": kind, "steps": steps})
-	defer cs.close()
 	b := cs.buf
 	b.Count("phase=" + phase)
 	b.Count(phase + " kind=" + kind)
-	desc := c16StepsText(steps)
+	cs.populate(mi)
+	ch := &c16Chain{cs: cs, m: m, mi: mi, kind: kind, phase: phase, desc: c16StepsText(steps), onlyFaults: true}
 	prev := cs.snap(m)
-	onlyFaults := true
 	for si, st := range steps {
 		switch {
 		case st.Crash > 0:
-			onlyFaults = false
+			ch.onlyFaults = false
 			b.Count(fmt.Sprintf("%s crash-k=%s/%d", phase, kind, st.Crash))
 			run, _ := cs.run(fmt.Sprintf("crash%d@%d", si, st.Crash), c16OneJob(kind, mi), c16Opts{Crash: st.Crash})
 			now := cs.snap(m)
@@ -1415,23 +1643,26 @@ func (p *c16Parent) chainCase(env *c16Env, phase, id string, mi int, kind string
 			}
 			if st.MustKill {
 				b.Direct(run.Killed, "crash-not-delivered",
-					fmt.Sprintf("%s child was not killed at hook %d (%s)", kind, st.Crash, desc), cs.replay)
+					fmt.Sprintf("%s child was not killed at hook %d (%s)", kind, st.Crash, ch.desc), cs.replay)
 			}
 			b.IOp(fmt.Sprintf("crashat %s %d %s %d", kind, n, prev, st.Crash), ans)
 			b.Safe(n, now, cs.replay)
 			prev = now
+			cs.checkBystanders(fmt.Sprintf("a %s of module %d killed at hook %d", kind, mi, st.Crash))
 		case st.Fault != "":
 			b.Count(phase + " fault=" + st.Fault)
 			res := cs.traced(kind, m, fmt.Sprintf("fault%d-%s", si, st.Fault), st.Fault, false, false).Res
 			b.Direct(!res.Ok, "fault-not-an-error",
-				fmt.Sprintf("%s returned no error although the registry failed (%s) (%s)", kind, st.Fault, desc), cs.replay)
+				fmt.Sprintf("%s returned no error although the registry failed (%s) (%s)", kind, st.Fault, ch.desc), cs.replay)
 			now := cs.snap(m)
 			b.Safe(n, now, cs.replay)
 			z := c16Field(now, 'z')
 			b.Direct(z == "-" || z == "f", "zip-partial", "a partial zip is at its final name after registry fault "+st.Fault+": "+now, cs.replay)
 			prev = now
+			cs.checkBystanders(fmt.Sprintf("a %s of module %d with registry fault %s", kind, mi, st.Fault))
 		}
 	}
+	ch.prev = prev
 	if c16Field(prev, 'd') != "-" && c16Field(prev, 'm') == "1" {
 		b.Count(phase + " recovery-via-stale-dir-cleanup")
 	}
@@ -1441,34 +1672,57 @@ func (p *c16Parent) chainCase(env *c16Env, phase, id string, mi int, kind string
 	if c16Field(prev, 't') != "-" || c16Field(prev, 'u') != "-" {
 		b.Count(phase + " recovery-with-stale-tmp")
 	}
+	fc := c16Job{Kind: "fromcache", Mod: mi, Fresh: true, Dir: cs.dir}
+	if kind == "fetch" {
+		ch.jobs = append(ch.jobs, fc)
+	}
+	ch.jobs = append(ch.jobs, c16Job{Kind: kind, Mod: mi, Fresh: true, Dir: cs.dir})
+	if kind == "fetch" {
+		ch.jobs = append(ch.jobs, fc)
+	}
+	ch.jobs = append(ch.jobs, cs.bystanderJobs()...)
+	return ch
+}
 
+// chainFinish evaluates the recovery jobs of a chain case: FetchFromCache, the clean run,
+// FetchFromCache again, FetchFromCache of every bystander version. It returns the number of
+// hook events of the recovery run.
+func (p *c16Parent) chainFinish(ch *c16Chain, rs []c16Result, fail string) (*c16Buf, int) {
+	cs, m, kind, phase, desc, prev := ch.cs, ch.m, ch.kind, ch.phase, ch.desc, ch.prev
+	n := m.N()
+	b := cs.buf
+	defer cs.close()
+	if rs == nil || len(rs) != len(ch.jobs) {
+		b.Direct(false, "child-failed", "the recovery worker of "+cs.id+" produced no result: "+fail, cs.replay)
+		return b, 0
+	}
+	for _, r := range rs {
+		cs.emitJob(r, "")
+	}
 	isFetch := kind == "fetch"
-	tr := cs.traced(kind, m, "recovery", "", isFetch, isFetch)
-	run, res := tr.Run, tr.Res
+	var before, res, after c16Result
+	rest := rs
 	if isFetch {
-		avail, verdict := tr.Before.Ok, tr.Before.Verdict
+		before, res, after, rest = rs[0], rs[1], rs[2], rs[3:]
+		avail, verdict := before.Ok, before.Verdict
 		b.Direct(!avail || verdict == "equal", "fromcache-incomplete",
 			fmt.Sprintf("FetchFromCache served an incomplete/incorrect directory after %s: %s (state %s)", desc, verdict, prev), cs.replay)
-		if onlyFaults {
+		if ch.onlyFaults {
 			b.Direct(!avail, "fromcache-after-fault", "FetchFromCache served a directory after a failed download ("+desc+")", cs.replay)
 		}
 		if avail {
 			b.Count(phase + " available-before-recovery")
 		}
-		if run.Out != nil {
-			b.Direct(tr.Before.Pre == prev, "snapshot-mismatch",
-				"the recovering child saw "+tr.Before.Pre+" but the parent saw "+prev+" in a quiescent state", cs.replay)
-		}
+		b.Direct(before.Pre == prev, "snapshot-mismatch",
+			"the recovering worker saw "+before.Pre+" but the parent saw "+prev+" in a quiescent state", cs.replay)
 	} else {
+		res, rest = rs[0], rs[1:]
 		f := c16Field(prev, 'f')
 		b.Direct(f == "-" || f == "f", "modfile-partial", "a partial module file is at its final name after "+desc+": "+prev, cs.replay)
 	}
-	h2 := 0
-	if run.Out != nil {
-		h2 = len(run.Out.Events)
-		b.Direct(run.Out.Init == prev, "snapshot-mismatch",
-			"the recovering child saw "+run.Out.Init+" but the parent saw "+prev+" in a quiescent state", cs.replay)
-	}
+	h2 := len(res.Events)
+	b.Direct(res.Pre == prev, "snapshot-mismatch",
+		"the recovering worker saw "+res.Pre+" but the parent saw "+prev+" in a quiescent state", cs.replay)
 	b.Direct(res.Ok, "recovery-failed", fmt.Sprintf("clean %s after %s failed: %s", kind, desc, res.ErrText), cs.replay)
 	if res.Ok {
 		b.Direct(res.Verdict == "equal", "recovery-wrong-content", fmt.Sprintf("clean %s after %s: %s", kind, desc, res.Verdict), cs.replay)
@@ -1476,7 +1730,7 @@ func (p *c16Parent) chainCase(env *c16Env, phase, id string, mi int, kind string
 	final := cs.snap(m)
 	b.Safe(n, final, cs.replay)
 	if isFetch {
-		avail, verdict := tr.After.Ok, tr.After.Verdict
+		avail, verdict := after.Ok, after.Verdict
 		b.Direct(avail && verdict == "equal", "not-available-after-recovery",
 			fmt.Sprintf("FetchFromCache after recovery from %s: avail=%v %s (state %s)", desc, avail, verdict, final), cs.replay)
 		b.Direct(c16Field(final, 'd') == fmt.Sprintf("%dg", n) && c16Field(final, 'm') == "0" && c16Field(final, 'z') == "f" && c16Field(final, 'l') == "0",
@@ -1484,7 +1738,56 @@ func (p *c16Parent) chainCase(env *c16Env, phase, id string, mi int, kind string
 	} else {
 		b.Direct(c16Field(final, 'f') == "f", "modfile-wrong-after-recovery", "module file after recovery from "+desc+": "+final, cs.replay)
 	}
+	for _, r := range rest {
+		b.Direct(r.Ok && r.Verdict == "equal", "cross-version-not-served",
+			fmt.Sprintf("after %s and the recovery of module %d, FetchFromCache of module %d (complete in the same cache before): %s %s %s", desc, ch.mi, r.Mod, r.Err, r.Verdict, r.ErrText), cs.replay)
+	}
+	cs.checkBystanders(fmt.Sprintf("%s and the clean %s of module %d", desc, kind, ch.mi))
 	return b, h2
+}
+
+// runChains runs the recovery jobs of many chain cases in a few worker processes and
+// finishes the cases; results are in the order of `chains`.
+func (p *c16Parent) runChains(env *c16Env, tag string, chains []*c16Chain, workers int) ([]*c16Buf, []int) {
+	bufs := make([]*c16Buf, len(chains))
+	h2 := make([]int, len(chains))
+	if len(chains) == 0 {
+		return bufs, h2
+	}
+	if workers > len(chains) {
+		workers = len(chains)
+	}
+	groups := make([][]int, workers)
+	for i := range chains {
+		groups[i%workers] = append(groups[i%workers], i)
+	}
+	c16Pool(workers, workers, func(g int) {
+		var jobs []c16Job
+		for _, i := range groups[g] {
+			jobs = append(jobs, chains[i].jobs...)
+		}
+		spec := c16Spec{Host: env.host, CacheDir: p.root, Seed: env.seed, WorkerID: fmt.Sprintf("recover/%s/%d", tag, g),
+			Jobs: jobs, Trace: true, ModsFile: env.modsFile}
+		run := p.start(spec, 0).wait()
+		var rs []c16Result
+		fail := run.Fail
+		if run.Out != nil && len(run.Out.Results) == len(jobs) {
+			rs = run.Out.Results
+		} else if fail == "" {
+			fail = "wrong number of results"
+		}
+		off := 0
+		for _, i := range groups[g] {
+			k := len(chains[i].jobs)
+			var part []c16Result
+			if rs != nil {
+				part = rs[off : off+k]
+			}
+			off += k
+			bufs[i], h2[i] = p.chainFinish(chains[i], part, fail)
+		}
+	})
+	return bufs, h2
 }
 
 func c16StepsText(steps []c16Step) string {
@@ -1523,7 +1826,7 @@ func (p *c16Parent) p5Case(env *c16Env, round int, r *Rng) *c16Buf {
 			nj := 2 + r.Intn(2)
 			var names []string
 			for j := 0; j < nj; j++ {
-				job := c16Job{Kind: Pick(r, []string{"fetch", "fetch", "modfile"}), Mod: r.Intn(len(env.mods)), Goroutine: g}
+				job := c16Job{Kind: Pick(r, []string{"fetch", "fetch", "modfile"}), Mod: r.Intn(c16NRegular), Goroutine: g}
 				ch.jobs = append(ch.jobs, job)
 				names = append(names, fmt.Sprintf("%s%d", job.Kind, job.Mod))
 				if job.Kind == "fetch" {
@@ -1574,7 +1877,7 @@ func (p *c16Parent) p5Case(env *c16Env, round int, r *Rng) *c16Buf {
 			}
 		}
 	}
-	for _, m := range env.mods {
+	for _, m := range env.mods[:c16NRegular] {
 		zt, mt := 0, 0
 		for ci, ch := range children {
 			zc, mc := env.srv.count(ch.worker, m.ZipDigest), env.srv.count(ch.worker, m.ModDigest)
@@ -1711,7 +2014,11 @@ func c16ParentMain(c *Cfg) {
 	// one independent generator per phase, so that -focus (which skips P3) makes the same choices
 	rP3, rP4, rP6, rP5 := r.Sub(), r.Sub(), r.Sub(), r.Sub()
 	const poolSize = 16
-	nm := len(env.mods)
+	nm := c16NPrimary
+	if err := p.makeTemplate(env); err != nil {
+		c.Direct(false, "harness-setup", err.Error(), nil)
+		return
+	}
 	// VERIF_C16_PHASES=P2,P7 (debugging aid) restricts the run to some phases; default: all
 	want := func(ph string) bool {
 		v := os.Getenv("VERIF_C16_PHASES")
@@ -1725,7 +2032,7 @@ func c16ParentMain(c *Cfg) {
 		bufs := make([]*c16Buf, nm)
 		c16Pool(nm, poolSize, func(i int) { bufs[i], H[i], HM[i] = p.p1Case(env, i) })
 		p.flush(bufs)
-		for i, m := range env.mods {
+		for i, m := range env.mods[:nm] {
 			if H[i] == 0 {
 				H[i] = 11 + 2*m.N()
 			}
@@ -1752,6 +2059,10 @@ func c16ParentMain(c *Cfg) {
 				continue
 			}
 			defer e2.hs.Close()
+			if err := p.makeTemplate(e2); err != nil {
+				c.Direct(false, "harness-setup", err.Error(), nil)
+				continue
+			}
 			envs = append(envs, e2)
 		}
 	}
@@ -1774,13 +2085,28 @@ func c16ParentMain(c *Cfg) {
 		H2[mi] = make([]int, H[mi]+2)
 	}
 	{
-		bufs := make([]*c16Buf, len(p2))
-		h2 := make([]int, len(p2))
+		chains := make([]*c16Chain, len(p2))
 		c16Pool(len(p2), poolSize, func(i int) {
 			x := p2[i]
 			id := fmt.Sprintf("p2-s%d-m%d-%s-k%d", x.env.seed, x.mi, x.kind, x.k)
-			bufs[i], h2[i] = p.chainCase(x.env, "P2", id, x.mi, x.kind, []c16Step{{Crash: x.k, MustKill: x.must}})
+			chains[i] = p.chainPrep(x.env, "P2", id, x.mi, x.kind, []c16Step{{Crash: x.k, MustKill: x.must}})
 		})
+		bufs := make([]*c16Buf, len(p2))
+		h2 := make([]int, len(p2))
+		for _, e := range envs { // one batch of recovery workers per registry
+			var idx []int
+			var sub []*c16Chain
+			for i, x := range p2 {
+				if x.env == e {
+					idx = append(idx, i)
+					sub = append(sub, chains[i])
+				}
+			}
+			bs, hs := p.runChains(e, fmt.Sprintf("p2-%d", e.seed), sub, 8)
+			for j, i := range idx {
+				bufs[i], h2[i] = bs[j], hs[j]
+			}
+		}
 		p.flush(bufs)
 		for i, x := range p2 {
 			if x.env == env && x.kind == "fetch" {
@@ -1803,8 +2129,8 @@ func c16ParentMain(c *Cfg) {
 		if !c.Thorough() {
 			pr := rP3
 			Shuffle(pr, pairs)
-			if len(pairs) > 20 {
-				pairs = pairs[:20]
+			if len(pairs) > 12 {
+				pairs = pairs[:12]
 			}
 			sort.Slice(pairs, func(a, b int) bool {
 				x, y := pairs[a], pairs[b]
@@ -1817,12 +2143,13 @@ func c16ParentMain(c *Cfg) {
 				return x.k2 < y.k2
 			})
 		}
-		bufs := make([]*c16Buf, len(pairs))
+		chains := make([]*c16Chain, len(pairs))
 		c16Pool(len(pairs), poolSize, func(i int) {
 			x := pairs[i]
 			id := fmt.Sprintf("p3-m%d-k%d-k%d", x.mi, x.k1, x.k2)
-			bufs[i], _ = p.chainCase(env, "P3", id, x.mi, "fetch", []c16Step{{Crash: x.k1, MustKill: true}, {Crash: x.k2, MustKill: true}})
+			chains[i] = p.chainPrep(env, "P3", id, x.mi, "fetch", []c16Step{{Crash: x.k1, MustKill: true}, {Crash: x.k2, MustKill: true}})
 		})
+		bufs, _ := p.runChains(env, "p3", chains, 6)
 		p.flush(bufs)
 	}
 
@@ -1854,11 +2181,20 @@ func c16ParentMain(c *Cfg) {
 		}
 		cases = append(cases, p4c{pr.Intn(nm), "modfile", []c16Step{{Fault: "modget"}, {Crash: 1 + pr.Intn(3), MustKill: true}}})
 		cases = append(cases, p4c{pr.Intn(nm), "modfile", []c16Step{{Crash: 1 + pr.Intn(2), MustKill: true}, {Fault: "modget"}}})
-		bufs := make([]*c16Buf, len(cases))
+		chains := make([]*c16Chain, len(cases))
 		c16Pool(len(cases), poolSize, func(i int) {
 			x := cases[i]
-			bufs[i], _ = p.chainCase(env, "P4", fmt.Sprintf("p4-%d", i), x.mi, x.kind, x.steps)
+			chains[i] = p.chainPrep(env, "P4", fmt.Sprintf("p4-%d", i), x.mi, x.kind, x.steps)
 		})
+		bufs, _ := p.runChains(env, "p4", chains, 4)
+		p.flush(bufs)
+	}
+
+	// P8: the `.tmp-` sibling cleanup against a version whose name extends another version's
+	// name by ".tmp-…" (both valid semantic versions).
+	if want("P8") {
+		bufs := make([]*c16Buf, 2)
+		c16Pool(2, 2, func(i int) { bufs[i] = p.p8Case(env, 5+i, 6-i) })
 		p.flush(bufs)
 	}
 
@@ -1880,6 +2216,9 @@ func c16ParentMain(c *Cfg) {
 			// written, the next created); killed with the complete directory and a stale marker
 			for _, crash := range []int{0, 11, 9 + 2*n} {
 				for _, rd := range []string{"fromcache", "fetch"} {
+					if rd == "fetch" && crash > 11 && !c.Thorough() && !c.Focus {
+						continue
+					}
 					cases = append(cases, p7c{mi, rd, crash})
 				}
 			}
@@ -1888,6 +2227,18 @@ func c16ParentMain(c *Cfg) {
 		c16Pool(len(cases), poolSize, func(i int) {
 			bufs[i] = p.p7Case(env, i, cases[i].mi, cases[i].reader, cases[i].crash)
 		})
+		p.flush(bufs)
+	}
+
+	// P7x: an extraction of version B parked at every hook point while version A (a sibling
+	// whose directory name is a prefix / an extension of B's, or an unrelated one) is fetched.
+	if want("P7") {
+		pairs := [][2]int{{1, 0}, {2, 0}, {0, 1}, {3, 0}}
+		if c.Thorough() || c.Focus {
+			pairs = append(pairs, [2]int{3, 1}, [2]int{0, 2}, [2]int{4, 0}, [2]int{1, 2})
+		}
+		bufs := make([]*c16Buf, len(pairs))
+		c16Pool(len(pairs), poolSize, func(i int) { bufs[i] = p.p7Cross(env, i, pairs[i][0], pairs[i][1]) })
 		p.flush(bufs)
 	}
 
@@ -1910,7 +2261,7 @@ func c16ParentMain(c *Cfg) {
 			hooks := append([]string(nil), c16PauseHooks...)
 			Shuffle(pr, hooks)
 			if !c.Focus { // the failing-input search tries every pause point
-				hooks = hooks[:4]
+				hooks = hooks[:3]
 			}
 			for i, h := range hooks {
 				cases = append(cases, p6c{pr.Intn(nm), h, i%2 == 1})
@@ -1925,7 +2276,7 @@ func c16ParentMain(c *Cfg) {
 
 	// P5: concurrency rounds.
 	if want("P5") {
-		rounds := c.Pick(6, 60)
+		rounds := c.Pick(4, 60)
 		if c.Focus && !c.Thorough() {
 			rounds = 12
 		}
@@ -1967,6 +2318,10 @@ type c16ILSpec struct {
 	Races    int    // additional free-running poller rounds
 	// Sweep: with a parked reader try every w2 > w1; otherwise only w2 = w1 and "W to completion"
 	Sweep bool
+	// Cross: instead of a reader of the same version, a Fetch of ANOTHER module version
+	// (index Other) runs to completion while the writer of Mod is parked at each hook point.
+	Cross bool
+	Other int
 }
 
 type c16ILEvent struct {
@@ -1990,6 +2345,9 @@ type c16ILRun struct {
 	Final     string // verdict of a fresh FetchFromCache after both finished
 	FinalSnap string
 	Deadlock  string
+	XRet      string // cross mode: the other version's Fetch
+	XVerdict  string
+	FinalX    string
 }
 
 type c16ILOut struct {
@@ -2377,6 +2735,85 @@ func c16ILChild(spec *c16Spec, mods []*c16Mod) {
 	}
 
 	out := &c16ILOut{}
+	if il.Cross {
+		mx := mods[il.Other]
+		for w1 := 0; w1 < 200; w1++ {
+			dir := freshDir()
+			run := c16ILRun{W1: w1, Init: c16Snapshot(dir, m)}
+			ct := &c16ILCtl{dir: dir, m: m, role: map[uint64]string{}, count: map[string]int{},
+				parkAt: map[string]int{}, gate: map[string]chan struct{}{}, note: make(chan string, 16), done: map[string]bool{}}
+			verifhook.SetHook(ct.hook)
+			var wt c16ILThread
+			wStarted, wDone := false, false
+			startW := func(park int) {
+				wStarted = true
+				c := newCache(dir)
+				ready := make(chan struct{})
+				go func() {
+					ct.mu.Lock()
+					ct.role[c16Gid()] = "W"
+					ct.parkAt["W"] = park
+					ct.mu.Unlock()
+					close(ready)
+					wt = call(c, "fetch")
+					ct.note <- "W done"
+				}()
+				<-ready
+			}
+			if w1 > 0 {
+				startW(w1)
+				if n := ct.wait("W parked", "W done"); n == "W done" {
+					wDone, run.WEnded = true, true
+				}
+			}
+			if !run.WEnded {
+				// the other version: fetched to completion by another Cache (its hook points are
+				// not recorded: the goroutine has no role)
+				xc := newCache(dir)
+				xloc, xerr := xc.Fetch(ctx, mx.MV)
+				if xerr != nil {
+					run.XRet, run.XVerdict = "err", xerr.Error()
+				} else {
+					run.XRet, run.XVerdict = "avail", c16CompareLoc(xloc, mx)
+				}
+				if !wStarted {
+					startW(0)
+					ct.wait("W done")
+				} else if !wDone {
+					ct.release("W", 0)
+					ct.wait("W done")
+				}
+				if wt.ret == "avail" {
+					wt.verdict = c16CompareLoc(wt.loc, m)
+				}
+				ct.mu.Lock()
+				ct.events = append(ct.events, c16ILEvent{"W", "ret:" + wt.ret, c16Snapshot(dir, m)})
+				run.Events, run.Deadlock, run.WHooks = ct.events, ct.dead, ct.count["W"]
+				ct.mu.Unlock()
+				run.WRet, run.WVerdict = wt.ret, wt.verdict
+				if ft := call(newCache(dir), "fromcache"); ft.ret == "avail" {
+					run.Final = c16CompareLoc(ft.loc, m)
+				} else {
+					run.Final = "not available"
+				}
+				if xl, err := newCache(dir).FetchFromCache(mx.MV); err == nil {
+					run.FinalX = c16CompareLoc(xl, mx)
+				} else {
+					run.FinalX = "not available: " + err.Error()
+				}
+				run.FinalSnap = c16Snapshot(dir, m)
+			}
+			verifhook.SetHook(nil)
+			modcache.RemoveAll(dir)
+			if run.WEnded {
+				break
+			}
+			out.Runs = append(out.Runs, run)
+		}
+		b, _ := json.Marshal(out)
+		os.Stdout.Write(append(b, '\n'))
+		return
+	}
 	// every w1 (until the writer has no such hook point), r = 0 and r = 1; for r = 1 with a
 	// parked reader every w2 > w1 and "to completion"
 	for w1 := 0; w1 < 200; w1++ {
@@ -2473,10 +2910,10 @@ func (p *c16Parent) p7Case(env *c16Env, idx, mi int, reader string, crash int) *
 	w := cs.worker("interleave")
 	sp := cs.spec(w, nil, false)
 	sp.CacheDir = work
-	// every (w1, w2) pair for the lock-free FetchFromCache and for the empty cache; for a
-	// reader Fetch on a crashed cache only "W stays" and "W finishes" (quick tier)
+	// quick tier: every (w1, w2) pair from the empty cache; on a crashed cache only "W stays"
+	// and "W finishes" for a parked reader; thorough and -focus: every pair everywhere
 	sp.IL = &c16ILSpec{Mod: mi, Reader: reader, Template: tmpl, Races: 2,
-		Sweep: reader == "fromcache" || crash == 0 || p.c.Thorough() || p.c.Focus}
+		Sweep: crash == 0 || p.c.Thorough() || p.c.Focus}
 	proc := p.start(sp, 0)
 	<-proc.done
 	raw := proc.stdout.String()
@@ -2544,5 +2981,98 @@ func (p *c16Parent) p7Case(env *c16Env, idx, mi int, reader string, crash int) *
 	b.Count("p7-race-rounds")
 	b.Direct(len(out.RaceBad) == 0, "race-served-incomplete",
 		"free-running FetchFromCache poller during a Fetch: "+strings.Join(out.RaceBad, "; "), cs.replay)
+	return b
+}
+
+// p8Case: version `first` is fetched completely, then version `second` of the same module is
+// fetched for the first time in the same cache; `first` must still be served complete.
+func (p *c16Parent) p8Case(env *c16Env, first, second int) *c16Buf {
+	cs := p.newCase(env, fmt.Sprintf("p8-%d-%d", first, second), map[string]any{"first": first, "second": second})
+	defer cs.close()
+	b := cs.buf
+	b.Count("phase=P8")
+	mf, ms := env.mods[first], env.mods[second]
+	jobs := []c16Job{
+		{Kind: "fetch", Mod: first},
+		{Kind: "fromcache", Mod: first, Fresh: true},
+		{Kind: "fetch", Mod: second},
+		{Kind: "fromcache", Mod: first, Fresh: true},
+		{Kind: "fromcache", Mod: second, Fresh: true},
+	}
+	run, _ := cs.run("probe", jobs, c16Opts{Trace: true})
+	if run.Out == nil || len(run.Out.Results) != len(jobs) {
+		return b
+	}
+	rs := run.Out.Results
+	okEq := func(r c16Result) bool { return r.Ok && r.Verdict == "equal" }
+	b.Direct(okEq(rs[0]) && okEq(rs[1]) && okEq(rs[2]) && okEq(rs[4]), "clean-fetch-failed",
+		fmt.Sprintf("fetching %s then %s into one cache failed", mf.MV, ms.MV), cs.replay)
+	// narrow class: only the pair (v, v + ".tmp-" + x) can be hit by the sibling cleanup
+	class := "cross-version-damaged"
+	if strings.HasPrefix(mf.MV.Version(), ms.MV.Version()+".tmp-") {
+		class = "tmp-prefix-version"
+	}
+	snap := cs.snap(mf)
+	b.Direct(okEq(rs[3]), class,
+		fmt.Sprintf("%s was fetched completely and served; after the first Fetch of %s in the same cache FetchFromCache(%s) answers: ok=%v %s %s (state %s)",
+			mf.MV, ms.MV, mf.MV, rs[3].Ok, rs[3].Verdict, rs[3].ErrText, snap), cs.replay)
+	return b
+}
+
+// p7Cross: module B's extraction is parked at every hook point in turn while module A is
+// fetched to completion in the same cache by another Cache; B's Fetch must end with an error
+// or with the complete module, and what is served afterwards must be complete.
+func (p *c16Parent) p7Cross(env *c16Env, idx, mb, ma int) *c16Buf {
+	m, mA := env.mods[mb], env.mods[ma]
+	n := m.N()
+	cs := p.newCase(env, fmt.Sprintf("p7x-%d", idx), map[string]any{"extracting": m.MV.String(), "fetchedMeanwhile": mA.MV.String()})
+	defer cs.close()
+	b := cs.buf
+	b.Count("phase=P7x")
+	w := cs.worker("cross")
+	sp := cs.spec(w, nil, false)
+	sp.IL = &c16ILSpec{Mod: mb, Cross: true, Other: ma}
+	proc := p.start(sp, 0)
+	<-proc.done
+	raw := proc.stdout.String()
+	run := proc.wait()
+	if run.Timeout || run.Fail != "" {
+		cs.checkRun(run, "cross")
+		return b
+	}
+	var out c16ILOut
+	lines := strings.Split(strings.TrimSpace(raw), "\n")
+	if err := json.Unmarshal([]byte(lines[len(lines)-1]), &out); err != nil {
+		b.Direct(false, "child-failed", "P7x child output unreadable: "+c16Clip(raw), cs.replay)
+		return b
+	}
+	for _, r := range out.Runs {
+		sched := fmt.Sprintf("Fetch(%s) runs to its hook point %d and parks; Fetch(%s) runs to completion in the same cache; Fetch(%s) resumes", m.MV, r.W1, mA.MV, m.MV)
+		rp := map[string]any{"seed": p.c.Seed, "modseed": env.seed, "case": cs.id, "extracting": m.MV.String(),
+			"fetchedMeanwhile": mA.MV.String(), "w1": r.W1, "schedule": sched}
+		b.Count("p7x-schedules")
+		var evs []c16Event
+		ret := "err"
+		for _, e := range r.Events {
+			if strings.HasPrefix(e.Hook, "ret:") {
+				ret = strings.TrimPrefix(e.Hook, "ret:")
+				continue
+			}
+			evs = append(evs, c16Event{e.Hook, e.Snap})
+		}
+		b.Direct(r.Deadlock == "", "interleave-deadlock", "schedule ["+sched+"]: "+r.Deadlock, rp)
+		b.Direct(r.XRet == "avail" && r.XVerdict == "equal", "interleave-writer-failed",
+			fmt.Sprintf("schedule [%s]: Fetch(%s): %s %s", sched, mA.MV, r.XRet, r.XVerdict), rp)
+		// the property's observable: B's Fetch ends with an error or hands out the complete module
+		b.Direct(r.WRet != "avail" || r.WVerdict == "equal", "cross-version-served-incomplete",
+			fmt.Sprintf("schedule [%s]: Fetch(%s) reported success for an incomplete directory: %s (state %s)", sched, m.MV, r.WVerdict, r.FinalSnap), rp)
+		b.Direct(r.Final == "equal" || r.Final == "not available", "cross-version-served-incomplete",
+			fmt.Sprintf("schedule [%s]: afterwards FetchFromCache(%s) serves: %s (state %s)", sched, m.MV, r.Final, r.FinalSnap), rp)
+		b.Direct(r.FinalX == "equal", "cross-version-damaged",
+			fmt.Sprintf("schedule [%s]: afterwards FetchFromCache(%s): %s", sched, mA.MV, r.FinalX), rp)
+		b.Safe(n, r.FinalSnap, rp)
+		// B's own history must be a run of the model on B's component alone (independence)
+		b.TraceOp("fetch", n, "none", r.Init, ret, evs, rp)
+	}
 	return b
 }
